@@ -6,10 +6,15 @@ SPEC = {
     'theorems': ['C33_recovered_paths_total', 'C33_recovered_guard_example',
                  'C33_no_panic_outside_recover', 'C33_no_panic_example', 'C33_validator_optional_example',
                  'C33_crash_characterisation', 'C33_loop_never_panics',
-                 'C33_light_block_never_panics', 'C33_light_block_example'],
+                 'C33_light_block_never_panics', 'C33_light_block_example',
+                 'C33_download_reply_never_panics', 'C33_download_reply_go_level', 'C33_download_accepts_only_requested',
+                 'C33_download_job_survives', 'C33_download_loop_total', 'C33_download_job_delivers_sent',
+                 'C33_download_job_example', 'C33_serve_handlers_total', 'C33_serve_request_refuted',
+                 'C33_serve_request_partial', 'C33_serve_request_example', 'C33_peer_handlers_total',
+                 'C33_peer_handlers_example'],
     'allowed_axioms': [],
     'shard': 60,
-    'check_preamble': 'From C33 Require Import C33.Model.\nOpen Scope Z_scope.\n',
+    'check_preamble': 'From C33 Require Import C33.Model C33.Streams.\nOpen Scope Z_scope.\n',
     'rule': 'histories of 2-14 events (3-30 thorough) fed to the real light-broadcast component: light blocks '
             '(TxCount 1-6 with 0-8 short hashes from an alphabet of 8 keys, heights 0-5, 6 header hashes so that the '
             'duplicate filter is hit; malformed variants: nil header, TxCount in {-2^63,-1,0,2^45+1,2^62}, more/fewer/no '
@@ -31,7 +36,27 @@ SPEC = {
             'comparisons of the loop body. After every event: survived?, blocks handed to the blockchain module (publisher, height, header '
             'fields, MainHash/MainHeight, transaction ids per slot), peer messages published (kind, peer, height), '
             'lengths of the pending and block-request lists. non-trivial = something was posted, published, pending '
-            'or crashed; distinct = distinct Gallina case terms',
+            'or crashed; distinct = distinct Gallina case terms. '
+            'STREAM paths (all in child processes of the harness, real in-process libp2p hosts: one node host running '
+            'download.InitProtocol and peer.InitProtocol with a stub blockchain/mempool, six scripted serving hosts; a child '
+            'that dies marks the case in progress as not survived and the rest of the batch goes to a fresh child): '
+            '"net-dl" 10 fixed + 110 (2500 thorough) download jobs of 1-3 heights (also start>end, no pid) from 1-4 peers in '
+            'latency order, every (peer, height) scripted with two replies (phase one, re-download in checkTask): no stream, '
+            'reset, short / wrong 17-byte header, undecodable, oversized, truncated frame, no Message, EMPTY item list, first '
+            'item without value / with a transaction, wrong height, several items, a Block or a request as the frame; '
+            'observables: acknowledgement, survival, blocks handed to the blockchain module, requests seen per peer and '
+            'height. "net-srv" / "net-srv-guarded" 60+30 (1200+600) histories of 2-6 requests to the node\'s two download '
+            'stream handlers (old: nil Message, both: wrong header, garbage, ranges from a table of int64 edge values, around '
+            '256, tip 0-6, stub answering blocks / empty list / error); guarded = non-negative start (guard of '
+            'C33_serve_request_partial: every spec failure there is a violation); observables: range forwarded to the '
+            'blockchain module, what the requester read (blocks / end of stream / reset). "net-srvlive": the same handlers in '
+            'front of a REAL test-node blockchain, 7 requests, observable = request at which the child dies (reproduces known '
+            'finding 4). "net-ver" 50 (1000) histories of 3-6 requests to handleStreamVersion / handleStreamVersionOld (26 '
+            'address strings: public, private, loopback, IPv6, non-numeric / overflowing / signed ports, too few parts, '
+            'not a multiaddr; other channel; nil Message; wrong header): reply AddrFrom, end of stream / reset, address-book '
+            'and blacklist effects. "net-lim": the node\'s own peer-info queries (1 s ticker of the real peer protocol, 6 '
+            'peers in the routing table, 5 (12) rounds, VerLimit 6.8.9 (thorough also "", 7, 6.8.9.1, x.8)) answered with 34 '
+            'version strings / wrong header / garbage / reset: refreshed, blacklisted or nothing',
     'trusted_base': [
         'Go run-time semantics written into the model: make panics for n < 0 or n > 2^45 (8-byte elements, linux/amd64) and '
         'aborts the process (no recover) when the OS cannot provide the memory; s[i] panics for i >= len; field access '
@@ -46,8 +71,17 @@ SPEC = {
         'broadcastProtocol.init without libp2p subscriptions and worker goroutines; wrappers for handleBroadcastReceive, '
         'handleBroadcastSend, buildLtBlock, handleAddBlock, list lengths; TickPendVerif/TickReqVerif repeat the statements '
         'of the two ticker cases (the live stream runs the real loops)',
-        'only the light-broadcast component is modelled; libp2p, snappy/protobuf decoding, the tx/block topics (validated '
-        'inside pubsub), the download and peer-info stream handlers are not (fuzzed by nobody here): status partial',
+        'stream paths (Streams.v): protobuf decoding and msgio framing are outside the model - the harness decodes every frame '
+        'it sends with types.Decode and gives the model the structure (a decoded repeated field has no nil element, a decoded '
+        'oneof member no nil message: C33_download_reply_go_level shows this is what the decoder relies on); ReadStream with a '
+        'wrong 17-byte header returns a nil error and a zero message (modelled, observed); utils.IsPublicIP and '
+        'multiaddr.NewMultiaddr are oracles evaluated by the harness on every string of a case; Peerstore.AddAddr tolerates a '
+        'nil multiaddr (libp2p memory address book); strconv.Atoi and strings.Split are transcribed; the task list of a '
+        'download job has distinct decodable peers in latency order and at most 20 heights (per-peer task limit never reached, '
+        'scheduling is C35); the local blockchain module answers EventGetBlocks with an error or non-nil items; '
+        'ProcGetBlockDetailsMsg is transcribed for a chain whose blocks 0..tip exist',
+        'not modelled: libp2p itself, the tx/block pubsub topics (validated inside pubsub), p2pstore and the other protocol '
+        'packages, the client side of the version query (same parse functions), event handlers fed by the local RPC: status partial',
     ],
     'assumptions': [
         'C33_recovered_paths_total / C33_no_panic_outside_recover: guard mem_ok = the operating system can provide a slice with '
@@ -56,15 +90,24 @@ SPEC = {
         'hash list already occupies 16 bytes per hash plus the strings). An environment assumption about memory, not about a '
         'number in the message; C33_crash_characterisation shows it is the only way left to end the process in the model',
         'the block filter (LRU of 1024 hashes) never evicts within a history',
+        'C33_serve_request_partial: guard sreq_nonneg = the decoded request has StartHeight >= 0 (boolean); int64 field values; '
+        'memory for 257 pointers. Without the guard the statement is refuted (C33_serve_request_refuted, known finding 4)',
     ],
     'manifest': {
         'level_text': 'partial: proved for the modelled index/allocation/nil logic of the light-block and peer-message paths '
                       '(after three repairs in chain33 no history of peer messages, pool changes and loop iterations ends the '
-                      'process or panics in a background loop, given memory for a slice as long as a received hash list; no '
-                      'refuted statement left); everything else is outside the model',
+                      'process or panics in a background loop, given memory for a slice as long as a received hash list), of the '
+                      'download reply decoder / retry loop / job (no reply panics the per-height goroutines, only a first-item '
+                      'block of the requested height is accepted), of the two serving-side download handlers (total; one open '
+                      'finding: the int64 range test wraps and a request with a huge negative start reaches a fatal allocation '
+                      'in the blockchain module - refuted + partial for non-negative starts) and of the version / version-limit '
+                      'handlers (total); everything else is outside the model',
         'level_note': 'model = hand-written Gallina transcription of addLtBlock/buildPendBlock/buildPendList/pendBlockLoop/'
                       'handlePeerMsg/addBlockRequest/handleBlockReqList with explicit Go panic semantics; mempool and chain '
-                      'are stubs; hook file builds the component without libp2p',
+                      'are stubs; hook file builds the component without libp2p; Streams.v = transcription of '
+                      'downloadBlockFromPeerOld/downloadBlock/handleEventDownloadBlock/checkTask, handleStreamDownloadBlock(Old), '
+                      'ProcGetBlockDetailsMsg, handleStreamVersion(Old)/setExternalAddr/parseIPAndPort/checkVersionLimit into '
+                      'Done | Dropped | Panicked | Died with the recover status of each path',
         'technique': 'Coq proof (invariant of the pending list by induction over event histories) + in-kernel '
                      'correspondence check, crash-prone cases in child processes',
     },
